@@ -93,7 +93,13 @@ def finish(seed_dir, meta):
       old = json.load(open(mp))
     except Exception:
       old = {}
+  checks = dict(old.get('checks', {}))
+  checks.update(meta.get('checks', {}))
   old.update(meta)
+  if checks:
+    old['checks'] = checks
+    old['caught_by'] = sorted(p for p, r in checks.items() if r.get('rc') == 1)
+    old['properties_checked'] = sorted(checks)
   with open(mp, 'w') as f:
     json.dump(old, f, indent=1, sort_keys=True)
   print(json.dumps({k: v for k, v in meta.items() if k != 'checks'}, sort_keys=True))
